@@ -18,8 +18,8 @@ CLAIMED = {
              'claimed after its queue handed it out, never on a rejected submission and never after a cancel/purge that succeeded '
              'before the start (inductive invariant of the per-job protocol, all event lists). Lock-step replay of projected traces '
              'ties the model to the code; the exactly-once / identity / eventually-runs parts are additionally monitored on every '
-             'explored history (11 scenario families, all worker and queue kinds, lifecycle calls, idle expiry).',
-        note=CONC_NOTE + ' "Eventually runs" is C03; per-queue exactly-once hand-out is C04.',
+             'explored history (scenario families over all worker and queue kinds, lifecycle calls, idle expiry). Also machine-checked and replayed: the submission that makes work dispatchable is announced to the event loop (wake-up model), a dispatched job finds a live pool goroutine (pool-node model), and the idle list\'s Remove answers true exactly for a member and takes it out (list model, tied to internal/linkedlist by a differential test) — the answer the reaper, Stop and the dispatcher use to decide who owns a node.',
+        note=CONC_NOTE + ' "Eventually runs" is C03; per-queue exactly-once hand-out is C04. Further models: coq/SliceWake.v, coq/SlicePool.v, coq/LList.v.',
         technique='Coq inductive invariant over a per-job transition system + lock-step trace validation', ref='5 C01'),
     'C02': dict(
         text='Machine-checked: the worker functions in progress never exceed curProcessing; curProcessing grows only at a reservation; a reservation goes on (to the status re-check, the dequeue, '
@@ -36,8 +36,8 @@ CLAIMED = {
              'thread is about to send one; hence at rest nothing dispatchable remains (min(pending, limit) jobs are in flight); a buffered signal is never lost; notifying never blocks. '
              'The model requires every step that makes work dispatchable to be followed by a notify — replayed against the worker-level projection of every explored execution. The '
              'controlled scheduler detects quiescence exactly: unfinished scenarios, library goroutines parked outside their idle points, accepted jobs never run, missing saturation '
-             'with gated worker functions and runaway loops are violations; a native burst across the FIFO\'s real segment sizes must drain.',
-        note='"Eventually" is rendered as "at rest"; that rest is reached is observed per execution (no ranking-function theorem). Theorems are about coq/SliceWake.v; the pool-node hand-off is monitored, not modelled. '
+             'with gated worker functions and runaway loops are violations; a native burst across the FIFO\'s real segment sizes must drain, and a batch of more than 1024 items must complete unread. Also machine-checked and replayed: a batch\'s stream has one slot per item, so no item\'s send waits for a reader (batch model); a dispatched job is received by a live pool goroutine (pool-node and idle-list models); the worker\'s reader/writer lock is never taken in read mode by a thread that holds it (lock model: no self-deadlock through a waiting writer).',
+        note='"Eventually" is rendered as "at rest"; that rest is reached is observed per execution (no ranking-function theorem). Theorems are about coq/SliceWake.v, coq/SliceBatch.v, coq/SlicePool.v, coq/LList.v, coq/Lockset.v. '
              'Trusted: Coq kernel, extraction, rewriter + shim runtime, projection, harness.',
         technique='Coq inductive invariant over the wake-up protocol + lock-step trace validation + exact quiescence detection', ref='5 C03'),
     'C04': dict(
@@ -53,7 +53,7 @@ CLAIMED = {
         text='Machine-checked: Wait on a job handle is enabled only once the job is Closed, and a job becomes Closed only after its '
              'worker function returned or without ever starting (cancelled, purged, rejected); once enabled it stays enabled for '
              'every caller. Lock-step replay ties the model to the code; early / never returning Wait, Result, Err and batch Wait '
-             'are monitored on every explored history.',
+             'are monitored on every explored history (also on user queues that implement IAcknowledgeable and refuse acknowledgements). The wake-up model is replayed too: a freed slot is announced to the event loop.',
         note=CONC_NOTE + ' Liveness ("they do return") rests on C03.',
         technique='Coq inductive invariant over a per-job transition system + lock-step trace validation', ref='5 C05'),
     'C06': dict(
@@ -62,8 +62,8 @@ CLAIMED = {
              'finished or been cancelled, and PauseAndWait / Stop / WaitAndStop (curProcessing read 0) return only when no worker function is executing. Per-job projections of the '
              'whole log are replayed on the extracted model; early and never-returning barriers are monitored on every explored history (exact quiescence detection). No missed wake-up: once a step '
              'has turned the callers\' condition false and nobody has broadcast since, a thread holds a new obligation (it goes on to releaseWaiters, to broadcast, or to notify the event loop) or the buffered '
-             'signal carries one; the model refuses a step that ends the wait and walks away; per-episode projections (status, curProcessing, queue lengths, releaseWaiters, Broadcast, notify / receive / close) are replayed on it.',
-        note='Theorems are about coq/SliceDisp.v (exactness) and coq/SliceBarrier.v (who owes the broadcast). That the owner of an obligation gets to act is progress (C03), observed by the quiescence monitor. Trusted: Coq kernel, extraction, rewriter + shim runtime, projection, harness.',
+             'signal carries one; the model refuses a step that ends the wait and walks away; per-episode projections (status, curProcessing, queue lengths, releaseWaiters, Broadcast, notify / receive / close) are replayed on it. The calls themselves are model events (coq/SliceBar.v): PauseAndWait / Stop / WaitAndStop return nil only to a caller that, inside its call, read 0 in flight on a halted worker (or Stopped under an earlier caller\'s hold) — each of several concurrent callers on its own; the worker lock is never read-locked recursively (coq/Lockset.v).',
+        note='Theorems are about coq/SliceDisp.v + coq/SliceBar.v (exactness, per call) and coq/SliceBarrier.v (who owes the broadcast). That the owner of an obligation gets to act is progress (C03), observed by the quiescence monitor. Trusted: Coq kernel, extraction, rewriter + shim runtime, projection, harness.',
         technique='Coq inductive invariant over a one-job-plus-counters transition system + lock-step trace validation', ref='5 C06'),
     'C07': dict(
         text='Machine-checked: every Result() / Err() call on a handle — received from the per-job response channel or read back after its close — yields the value that job\'s own worker '
@@ -84,14 +84,14 @@ CLAIMED = {
         text='Machine-checked (Dekker-style argument on the two atomics, as an inductive invariant): once a barrier caller has read curProcessing = 0 on a Paused / Stopped worker, '
              'no worker function is executing, no dispatcher can dequeue, claim or start a job, and this lasts until Running / Initiated is stored (Resume, Restart); a reservation '
              're-checked after the Pause store is returned unused; status stores leave the queues untouched. Per-job projections are replayed on the extracted model; starts between '
-             'a barrier return and the next Resume / Restart are monitored on every explored history.',
-        note='Theorems are about coq/SliceDisp.v. Trusted: Coq kernel, extraction, rewriter + shim runtime (sequentially consistent atomics), projection, harness.',
+             'a barrier return and the next Resume / Restart are monitored on every explored history. "Has returned" is a model event (coq/SliceBar.v): the nil-return of a barrier call is enabled only for a caller that established the hold inside its call, and the caller stays covered until Running / Initiated is stored. "Pending jobs resume": the wake-up model is replayed (a resumed worker with pending jobs below its limit is never left asleep), with submissions that straddle the Resume / Restart.',
+        note='Theorems are about coq/SliceDisp.v, coq/SliceBar.v, coq/SliceWake.v. Trusted: Coq kernel, extraction, rewriter + shim runtime (sequentially consistent atomics), projection, harness.',
         technique='Coq inductive invariant over a one-job-plus-counters transition system + lock-step trace validation', ref='5 C09'),
     'C10': dict(
         text='Machine-checked: a Close that returns nil before the start makes the job cancelled for good (never executed afterwards); '
              'at most one Close returns nil, the job is closed by exactly one compare-and-swap claim, its waiters are released at '
              'most once and the wait group never goes negative; a closed queue rejects with no effect. Lock-step replay ties the '
-             'model to the code; cancel/purge/queue-close races are monitored on every explored history.',
+             'model to the code; cancel/purge/queue-close races are monitored on every explored history. For items of a batch the batch model is replayed as well (stream closed at most once, never sent to after the close, wait group never negative), and Purge hands out every pending element (queue differential test, segments of 1..18 slots; native: purged batches of more than 1024 items).',
         note=CONC_NOTE,
         technique='Coq inductive invariant over a per-job transition system + lock-step trace validation', ref='5 C10'),
     'C11': dict(
